@@ -22,7 +22,7 @@ import numpy as np
 from vlib import refs
 from vlib import mainloop as ml
 from vlib import drivers  # noqa: F401
-from vlib.ctx import HarnessError, VERIF
+from vlib.ctx import scratch_dir, HarnessError, VERIF
 from checks.c01 import ALPHABETS, tables_block
 from checks.c05 import base_matrices, make_model
 
@@ -195,7 +195,7 @@ def mode_main(mode, arg, tier, seed):
 
 # ---------------------------------------------------------------------- comparison (parent)
 def run(ctx):
-    tmp = tempfile.mkdtemp(prefix="c15_", dir=os.path.join(VERIF, "replays"))
+    tmp = scratch_dir("c15_")
     outs = {}
     try:
         procs = {}
